@@ -28,7 +28,7 @@ protected:
     long int getTreeCoordinate(const RealType inRelativePosition, const long int inDim) const {
         assert(inRelativePosition >= 0 && inRelativePosition <= configuration.getBoxWidths()[inDim]);
         if(inRelativePosition == configuration.getBoxWidths()[inDim]){
-            return (1 << (configuration.getTreeHeight()-1))-1;
+            return (1L << (configuration.getTreeHeight()-1))-1;
         }
         const RealType indexFReal = inRelativePosition / configuration.getLeafWidths()[inDim];
         return static_cast<long int>(indexFReal);
@@ -157,8 +157,8 @@ public:
             }
         }
 
-        const long int boxLimite = (1 << (inLevel));
-        const long int boxLimiteParent = (1 << (inLevel-1));
+        const long int boxLimite = (1L << (inLevel));
+        const long int boxLimiteParent = (1L << (inLevel-1));
 
         const IndexType cellIndex = inMIndex;
         const auto cellPos = getBoxPosFromIndex(cellIndex);
@@ -289,8 +289,8 @@ public:
             }
         }
 
-        const long int boxLimite = (1 << (inLevel));
-        const long int boxLimiteParent = (1 << (inLevel-1));
+        const long int boxLimite = (1L << (inLevel));
+        const long int boxLimiteParent = (1L << (inLevel-1));
 
         for(long int idxCell = 0 ; idxCell < inGroup.getNbCells() ; ++idxCell){
             const IndexType cellIndex = inGroup.getCellSpacialIndex(idxCell);
@@ -415,7 +415,7 @@ public:
 
     auto getNeighborListForIndex(const IndexType cellIndex, const long int inLevel, const bool upperExclusion = false) const{
         assert(inLevel >= 0);
-        const long int boxLimite = (1 << (inLevel));
+        const long int boxLimite = (1L << (inLevel));
 
         std::vector<IndexType> indexes;
         indexes.reserve(TbfUtils::lipow(3,Dim)/2);
@@ -512,7 +512,7 @@ public:
     template <class GroupClass>
     auto getNeighborListForBlock(const GroupClass& inGroup, const long int inLevel, const bool upperExclusion = false, const bool testSelfInclusion = true) const{
         assert(inLevel >= 0);
-        const long int boxLimite = (1 << (inLevel));
+        const long int boxLimite = (1L << (inLevel));
 
         std::vector<TbfXtoXInteraction<IndexType>> indexesInternal;
         indexesInternal.reserve(inGroup.getNbLeaves());
